@@ -14,6 +14,10 @@ TRUSTED = ['clang 14 AST + constant evaluation', 'bsfacts', 'bsv/dtab.py interpr
 
 
 def run(prog, rep):
+    from rules import narrow_counters
+    narrow_counters.check(prog, rep, 'R10.16')
+    from rules import csvunescape
+    csvunescape.check(prog, rep, 'R10.15')
     from rules import csv_options
     csv_options.check(prog, rep, 'R10.13')
     M.check_reader_twins(prog, rep)
